@@ -289,6 +289,36 @@ func c05() {
 			run.Sample(3, map[string]any{"kind": tp.kind, "arch": t.Name, "program": vlib.DumpRaw(c.Raw), "policy": spec.Brief()})
 		}
 	})
+	// policies carrying a defect (C07's injections): whenever the compiler accepts one anyway, what it emits must still be a valid filter
+	nInj := run.N(40, 1500)
+	vlib.Parallel(nInj, func(i int) {
+		r := caseRand(run, 6000000+i)
+		t := ts[i%len(ts)]
+		mp := vlib.DefaultMixed()
+		mp.MaxGroups, mp.BigNamesChance, mp.LongListChance = 3, 12, 12
+		base := vlib.SpecOf(vlib.GenMixed(r, t, mp), t.Name)
+		for _, inj := range injections(r, base, t, ts) {
+			c := vlib.Compile(inj.spec.Policy(), t)
+			run.Count("defective_policies_offered", 1)
+			if c.Panic != nil || c.Err != nil {
+				continue
+			}
+			run.Count("defective_policies_accepted_by_compiler", 1)
+			what := ""
+			switch {
+			case c.RawErr != nil:
+				what = "bpf.Assemble fails: " + c.RawErr.Error()
+			case len(c.Raw) <= 4096 && vlib.KernelCheck(c.Raw) != "":
+				what = "the kernel verifier rejects the program: " + vlib.KernelCheck(c.Raw)
+			}
+			if what != "" {
+				sig := "accepted-defective-policy-invalid-program:" + inj.kind
+				run.Violation(sig, fmt.Sprintf("arch %s: policy with %s at %s is accepted by Assemble, and %s", t.Name, inj.kind, inj.pos, what),
+					map[string]any{"check": "C05", "policy": inj.spec, "defect": inj.kind, "position": inj.pos})
+				return
+			}
+		}
+	})
 	c05KernelTier(run, ts)
 	var rw []string
 	for v := range retWords {
